@@ -25,34 +25,73 @@ mod smoke;
 fn main() {
     // deterministic time zone for every serialisation of times
     // SAFETY-free: set before any thread is spawned
-    let args = Args::parse();
+    let mut args = Args::parse();
+    // a violation recorded for a harness step that failed is replayed by re-running its shard
+    if let Some(p) = &args.replay {
+        if let Ok(v) = std::fs::read_to_string(p).map_err(|_| ()).and_then(|s| serde_json::from_str::<serde_json::Value>(&s).map_err(|_| ())) {
+            if let Some(sh) = v["case"]["rerun_shard"].as_str() {
+                if let Some((i, n)) = sh.split_once('/') {
+                    args.shard = i.parse().unwrap_or(0);
+                    args.nshards = n.parse().unwrap_or(1);
+                    args.tier = if v["case"]["tier"].as_str() == Some("thorough") { vkit::report::Tier::Thorough } else { vkit::report::Tier::Quick };
+                    args.replay = None;
+                }
+            }
+        }
+    }
     let mut rep = Report::new(&args);
+    let r = std::panic::catch_unwind(std::panic::AssertUnwindSafe(|| dispatch(&args, &mut rep)));
+    if let Err(e) = r {
+        let msg = e.downcast_ref::<String>().cloned().or_else(|| e.downcast_ref::<&str>().map(|s| (*s).to_string())).unwrap_or_default();
+        // Steps which only concern the machinery itself keep their meaning (exit 2). Every other
+        // step of a harness is a call into the library on a healthy repository which the harness
+        // relies on (init, open, backup, forget, prune, ...): the harness is deterministic and does
+        // not fail there on a tree where the property holds, so a failure is reported as a violation.
+        const MACHINERY: [&str; 18] = [
+            "sandbox", "write report", "spawn smoke child", "exe", "replay file", "wait", "json", "report json", "master key json",
+            "config json", "driver", "schedule", "criterion", "prune option index", "scenario", "subject", "action", "No space left",
+        ];
+        let label: String = msg.split(':').next().unwrap_or("").trim().chars().take(60).collect();
+        if MACHINERY.iter().any(|m| label == *m || msg.contains("No space left on device")) {
+            rep.machinery(format!("harness panic: {msg}"));
+        } else {
+            let short: String = label.chars().map(|c| if c.is_alphanumeric() { c } else { '-' }).collect();
+            rep.violation(
+                format!("{}/harness-step-failed/{short}", args.prop.to_uppercase()),
+                format!("a library call the harness relies on failed or panicked: {msg}"),
+                serde_json::json!({"rerun_shard": format!("{}/{}", args.shard, args.nshards), "tier": if args.quick() { "quick" } else { "thorough" }}),
+            );
+        }
+    }
+    rep.finish(&args);
+}
+
+fn dispatch(args: &Args, rep: &mut Report) {
     match args.prop.to_lowercase().as_str() {
-        "c10" => c10::run(&args, &mut rep),
-        "c11" => c11::run(&args, &mut rep),
-        "c12" => c12::run(&args, &mut rep),
-        "c13" => c13::run(&args, &mut rep),
-        "c14" => c14::run(&args, &mut rep),
-        "c15" => c15::run(&args, &mut rep),
-        "c16" => c16::run(&args, &mut rep),
-        "c17" => c17::run(&args, &mut rep),
-        "c18" => c18::run(&args, &mut rep),
-        "c19" => c19::run(&args, &mut rep),
+        "c10" => c10::run(args, rep),
+        "c11" => c11::run(args, rep),
+        "c12" => c12::run(args, rep),
+        "c13" => c13::run(args, rep),
+        "c14" => c14::run(args, rep),
+        "c15" => c15::run(args, rep),
+        "c16" => c16::run(args, rep),
+        "c17" => c17::run(args, rep),
+        "c18" => c18::run(args, rep),
+        "c19" => c19::run(args, rep),
         "c18-smoke" => std::process::exit(c18::smoke_child(args.extra.first().map_or("", String::as_str))),
-        "smoke" => smoke::run(&args, &mut rep),
-        "c01" => c01::run(&args, &mut rep),
-        "c02" => c02::run(&args, &mut rep),
-        "c03" => c03::run(&args, &mut rep),
-        "c04" => c04::run(&args, &mut rep),
-        "c05" => c05::run(&args, &mut rep),
-        "c06" => c06::run(&args, &mut rep),
-        "c07" => c07::run(&args, &mut rep),
-        "c08" => c08::run(&args, &mut rep),
-        "c09" => c09::run(&args, &mut rep),
+        "smoke" => smoke::run(args, rep),
+        "c01" => c01::run(args, rep),
+        "c02" => c02::run(args, rep),
+        "c03" => c03::run(args, rep),
+        "c04" => c04::run(args, rep),
+        "c05" => c05::run(args, rep),
+        "c06" => c06::run(args, rep),
+        "c07" => c07::run(args, rep),
+        "c08" => c08::run(args, rep),
+        "c09" => c09::run(args, rep),
         other => {
             eprintln!("unknown property {other}");
             std::process::exit(2);
         }
     }
-    rep.finish(&args);
 }
